@@ -22,6 +22,13 @@
 (*              operands are merged into it -- i.e. into the first row's   *)
 (*              value, shared by every node that adopted it.  Kept as the  *)
 (*              non-vacuity run: TLC must reject it.                       *)
+(*       StopAtLimit  another realistic edit ("rows past the LIMIT are not *)
+(*              going to be returned and need not be looked at"): without  *)
+(*              ORDER BY / DISTINCT / HAVING the scan ends when group      *)
+(*              number limit + 1 shows up -- forgetting that rows of the   *)
+(*              groups already open keep arriving.  Second non-vacuity run.*)
+(* LIMIT: the groups come out in creation order (after the HAVING filter); *)
+(* the first `limit` of them are returned.                                 *)
 (***************************************************************************)
 EXTENDS InvSum, TLC
 
@@ -29,6 +36,7 @@ CONSTANTS Mode, Prices, Scale
 
 Copy == "copy"
 Adopt == "adopt"
+StopAtLimit == "stop at limit"
 
 VARIABLES
     tab,        \* the table as the user defined it (constant along a behaviour): Seq(row)
@@ -60,13 +68,23 @@ Begin ==
     /\ UNCHANGED <<tab, plan, heap, results>>
 
 (* the first row of a group: create its store, initialise every node with a fresh empty inventory *)
+EnoughGroups == Mode = StopAtLimit /\ Cur.limit # 0 /\ ~Cur.having /\ Len(stores) >= Cur.limit
 NewGroup ==
     /\ st # 0 /\ i <= Len(tab) /\ j = 1
     /\ StoreIdx(KeyOf(Cur, tab[i])) = 0
+    /\ ~EnoughGroups
     /\ LET N == AllNodes(Cur) IN
        /\ heap' = heap \o [n \in 1..Len(N) |-> EmptyInv]
        /\ stores' = Append(stores, [key |-> KeyOf(Cur, tab[i]), slots |-> [n \in 1..Len(N) |-> Len(heap) + n]])
     /\ UNCHANGED <<tab, plan, st, i, j, results>>
+
+(* (StopAtLimit only) a row of a group past the limit: the scan is abandoned *)
+StopScan ==
+    /\ st # 0 /\ i <= Len(tab) /\ j = 1
+    /\ StoreIdx(KeyOf(Cur, tab[i])) = 0
+    /\ EnoughGroups
+    /\ i' = Len(tab) + 1
+    /\ UNCHANGED <<tab, plan, heap, st, j, stores, results>>
 
 (* node j sees row i: evaluate the operand (the cell's object itself, or a new object holding f of it), merge *)
 Update ==
@@ -91,21 +109,24 @@ Final(nd, v) == IF nd[1] = "fsum" THEN ApplyI(nd[2], v, Prices, Scale) ELSE v
 Finalize ==
     /\ st # 0 /\ i > Len(tab)
     /\ LET N == AllNodes(Cur)
-           keep == {s \in 1..Len(stores) : ~Cur.having \/ heap[stores[s].slots[Len(N)]] # EmptyInv}
+           kept == {s \in 1..Len(stores) : ~Cur.having \/ heap[stores[s].slots[Len(N)]] # EmptyInv}
+           keep == IF Cur.limit = 0 THEN kept
+                   ELSE {s \in kept : Cardinality({u \in kept : u < s}) < Cur.limit}      \* the first `limit` in creation order
        IN results' = Append(results,
               { [key |-> stores[s].key,
                  vals |-> [n \in 1..Len(Cur.nodes) |-> Final(Cur.nodes[n], heap[stores[s].slots[n]])]] : s \in keep })
     /\ st' = 0 /\ i' = 0 /\ j' = 0
     /\ UNCHANGED <<tab, plan, heap, stores>>
 
-SNext == Begin \/ NewGroup \/ Update \/ Finalize
+SNext == Begin \/ NewGroup \/ StopScan \/ Update \/ Finalize
 AllExecuted == st = 0 /\ Len(results) = Len(plan)
 
 -----------------------------------------------------------------------------
-(* THE PROPERTY: every statement of the history returned what InvSum!Expected says for the table as defined.
+(* THE PROPERTY: every statement of the history returned what InvSum!Expected says for the table as defined (with a
+   LIMIT: that many of those rows, InvSum!Conforms).
    `results` only grows (Finalize appends, nothing else touches it), so it is enough to look at a result in the state
    in which it appears: the last one, whenever the mechanism is idle. *)
-ResultInv == (st = 0 /\ results # <<>>) => results[Len(results)] = Expected(tab, plan[Len(results)], Prices, Scale)
+ResultInv == (st = 0 /\ results # <<>>) => Conforms(results[Len(results)], tab, plan[Len(results)], Prices, Scale)
 ResultsGrow == [][\A n \in 1..Len(results) : Len(results') >= n /\ results'[n] = results[n]]_svars
 (* ... which needs: aggregation never changes the values it reads, and an accumulator is nobody else's object *)
 InputsInv == \A n \in 1..Len(tab) : heap[n] = CellInv(tab[n])
